@@ -26,7 +26,8 @@ TRANSLATE = {
 }
 TRANSLATE["poly"] = [("Polyhedron", "into_scad"), ("Polyhedron", "into_scad_with_convexity"), ("Polyhedron", "translate"),
                      ("Polyhedron", "apply_matrix"), ("Polyhedron", "rotate_x"), ("Polyhedron", "rotate_y"), ("Polyhedron", "rotate_z"),
-                     ("Polyhedron", "linear_extrude"), ("Polyhedron", "loft"), ("Polyhedron", "cylinder")]
+                     ("Polyhedron", "linear_extrude"), ("Polyhedron", "loft"), ("Polyhedron", "cylinder"),
+                     ("Polyhedron", "rotate_extrude"), ("Polyhedron", "sweep")]
 TRANSLATE["thread_parts"] = [(None, "threaded_rod"), (None, "tap"), (None, "hex_bolt"), (None, "hex_nut")]
 SOURCE = {"pipe": "pipe", "scad": "scad", "thread_parts": "metric_thread", "poly": "dim3"}
 OUTNAME = {"pipe": "SrcPipe", "scad": "SrcScad", "thread_parts": "SrcThreadParts", "poly": "SrcPolyhedron"}
@@ -34,6 +35,8 @@ OUTNAME = {"pipe": "SrcPipe", "scad": "SrcScad", "thread_parts": "SrcThreadParts
 POLY_EXTERNS = {
     (None, "triangulate2d"): {"lean": "Tri.triangulate2d", "params": [("vertices", "Pt2s", "ref")], "ret": "Indices", "selfmode": None, "partial": True},
     (None, "triangulate2d_rev"): {"lean": "Tri.triangulate2dRev", "params": [("vertices", "Pt2s", "ref")], "ret": "Indices", "selfmode": None, "partial": True},
+    (None, "triangulate3d"): {"lean": "Tri.triangulate3d", "params": [("vertices", "Pt3s", "ref"), ("normal", "Pt3", "val")], "ret": "Indices", "selfmode": None, "partial": True},
+    (None, "triangulate3d_rev"): {"lean": "Tri.triangulate3dRev", "params": [("vertices", "Pt3s", "ref"), ("normal", "Pt3", "val")], "ret": "Indices", "selfmode": None, "partial": True},
 }
 # functions the part builders call that stay hand-modelled: their model is named directly
 # (each is tied to the crate separately: the table by gen_thread.py and the C16 lookup run, the mesh
